@@ -111,3 +111,26 @@ prop('C16', units=['idx', 'fs'], level='proof', relevant=r'^unit::(index|file_sy
                                'FS: list_includes is external_body: distinct include statements have distinct ids',
                                'FS: FileSet/SourceRoot/HashMap<IncludeId,_>/salsa setters behave as their ghost views say (assumed contracts); IncludeId obeys the key model',
                                'FS: R4 desugaring of the inner for-loop; a `;` plus ghost block is appended after the unit tail expression of the outer loop body'])
+
+prop('C10', units=['li', 'lp'], level='proof',
+     explanation=('Unit LI: Verus proves on the real text of crates/ide/src/line_index.rs, against assumed contracts of ropey::Rope written from its documentation, that '
+                  'pos_to_line returns the number of line endings (exactly LF, CR not followed by LF, CRLF) that end at or before the offset, pos_to_col the UTF-16 length of the '
+                  'text between the start of that line and the offset, line_col_to_pos the byte offset of the char at that UTF-16 column of that line, the line end (terminator '
+                  'excluded) for a column past it and the end of the text for a line past the last one; no ropey precondition, subtraction or TextSize/u32 conversion can fail for '
+                  'offsets inside a text < 4 GiB. The set of line breaks ropey recognises is a cargo-feature choice: it is read from the cargo metadata of the ropey artifact of '
+                  'THIS build of /repo and the proofs need cr_lines without unicode_lines. Unit LP: the real lsp::to_proto::{position,range} and lsp::from_proto::position are '
+                  'verified as their own crate against the real ide/async-lsp rlibs, using for LineIndex exactly the contract text LI proves; their postconditions are '
+                  'is_position_of / is_offset_of, the reference notions of contracts/li/spec.rs (multi-byte and astral chars: u8w/u16w). The round trip '
+                  '(offset -> position -> same offset, for char-boundary offsets not between CR and LF) and "a column past the end means the line end" are the proved lemmas '
+                  'lemma_round_trip and lemma_past_end over these two postconditions.'),
+     assumptions=['Verus/Z3/rustc sound; extraction faithful (round-trip audit)',
+                  'ropey 1.6.1 Rope behaves as documented (17 assumed contracts in contracts/li/prelude.rs): from_str keeps the text; len_*; byte_to_char = char the byte belongs to; '
+                  'byte_to_line / char_to_line = line endings before the index; char_to_utf16_cu; utf16_cu_to_char = char the code unit belongs to; line_to_char / line_to_byte incl. one-past-the-end; char; '
+                  'each panics only outside its documented index range; line breaks per cargo feature (LF, CRLF always; CR with cr_lines; VT, FF, NEL, LS, PS with unicode_lines)',
+                  'text-size: usize::from(TextSize) widens the u32; TextSize::try_from(usize) succeeds for values <= u32::MAX',
+                  'lsp-types Position::new / Range::new are plain constructors',
+                  'a text is smaller than 4 GiB (precondition of LineIndex::new; wf of every index)',
+                  'LP assumes for LineIndex the contracts LI proves (same clause text, generated from contracts/li/shared.py); the identity li_view(index) == text it was built from crosses the unit border by name only',
+                  'from_proto::range is outside the unit (TextRange::new asserts start <= end; a reversed range sent by a client panics: not a C10 matter, noted in DESIGN)',
+                  'offsets that are not on a char boundary or lie between CR and LF, and columns inside a surrogate pair, are outside the property; for them only absence of panics is proved',
+                  'R11: the parameters named like their function (position, range) are alpha-renamed in the verified text'])
